@@ -14,6 +14,8 @@ var h04Lists = [][]string{
 	{"x1", "42", "ok"},     // "42" does not change under title-casing
 	{"Apple", "pear"},      // a pre-capitalised word
 	{"a", "bb", "ccc", "dddd", "eeeee", "ffffff", "ggggggg"},
+	{"'tis", "of", "thee"},   // leading punctuation: strings.Title gives 'Tis
+	{"jean-luc", "o'neil"},   // multi-part words: strings.Title capitalises every part
 	{"", "ab"}, // contains the empty word (known finding D6)
 }
 
